@@ -371,6 +371,9 @@ class Evaluator:
         s.assume_finite = True             # np.isfinite(x) folds to True (recorded by the rules as an assumption)
         s.raises: list = []                # pruned raise branches: guard, polarity, exception name, path condition
         s._pc: list = []
+        s.inline_str_classes: set = set()    # classes whose __str__ is unfolded when an instance is formatted (default: str(obj) stays a symbolic part)
+        s.inline_self_methods: set = set()   # public methods of the class under analysis that are inlined as well (by default only private helpers are)
+        s.atom_calls: list = []     # (receiver atom, method, args, kw) of every method called on an uninterpreted object, in evaluation order
         s.atom_methods: dict = {}   # (atom, method name) -> (Module, FunctionDef): methods of a typed atom that are inlined (self = the atom)
         s.builds: list = []      # every array-build term created, in order of creation (dicts: name, term, mod, line)
         s._build = None          # array-build mode: {'gens': [...], 'pc0': n, 'recs': {name: [...]}, 'ok': bool}
@@ -380,7 +383,7 @@ class Evaluator:
     def fresh(s):
         """evaluator with the same configuration but none of the facts / stores learnt while evaluating code (used for specifications)"""
         e = Evaluator(s.prog, s.real, s._init_facts, s.depth_limit)
-        e.opaque_fns = set(s.opaque_fns); e.opaque_classes = set(s.opaque_classes); e.self_class = s.self_class; e.self_atom = s.self_atom; e.integer = set(s.integer); e.mod_facts = dict(s.mod_facts); e.assume_finite = s.assume_finite; e.atom_methods = dict(s.atom_methods)
+        e.opaque_fns = set(s.opaque_fns); e.opaque_classes = set(s.opaque_classes); e.self_class = s.self_class; e.self_atom = s.self_atom; e.integer = set(s.integer); e.mod_facts = dict(s.mod_facts); e.assume_finite = s.assume_finite; e.atom_methods = dict(s.atom_methods); e.inline_self_methods = set(s.inline_self_methods)
         return e
 
     def learn(s, g, polarity: bool, exc=None, top=True):
@@ -568,6 +571,8 @@ class Evaluator:
             if isinstance(a, list) and isinstance(b, list): return a + b
             if isinstance(a, tuple) and isinstance(b, tuple): return a + b
             if isinstance(a, str) and isinstance(b, str): return a + b
+            if (isinstance(a, str) or (isinstance(a, Opq) and a.k and a.k[0] in ('strcat', 'fmt'))) and (isinstance(b, str) or (isinstance(b, Opq) and b.k and b.k[0] in ('strcat', 'fmt'))):
+                return s.mkstr([a, b])
             if isinstance(a, (list, Comp)) and isinstance(b, (list, Comp)) or (isinstance(a, Opq) and a.k[0] in ('sorted', 'concat', 'list')) or (isinstance(b, Opq) and b.k[0] in ('sorted', 'concat', 'list')) \
                     or (isinstance(a, (list, Comp)) and isinstance(b, Poly) and b.as_atom() is not None and not isinstance(a, list)) or (isinstance(b, Comp) and isinstance(a, Poly) and a.as_atom() is not None):
                 parts_ = []
@@ -805,7 +810,44 @@ class Evaluator:
         return out
 
     def e_JoinedStr(s, e, env, mod, depth):
-        return Opq('fstr', ast.unparse(e)[:40])
+        parts = []
+        for v in e.values:
+            if isinstance(v, ast.Constant): parts.append(str(v.value)); continue
+            if isinstance(v, ast.FormattedValue):
+                val = s.ev(v.value, env, mod, depth)
+                spec_ = ''
+                if v.format_spec is not None:
+                    sp_ = s.e_JoinedStr(v.format_spec, env, mod, depth) if isinstance(v.format_spec, ast.JoinedStr) else None
+                    spec_ = sp_ if isinstance(sp_, str) else Opq('dynspec', sp_)
+                parts.append(s.to_str(val, spec_, v.conversion, mod, depth)); continue
+            parts.append(Opq('?', 'fstring part'))
+        return s.mkstr(parts)
+
+    # ---- string normal form: a string is a literal or strcat(parts...) with literal runs merged; conditionals are lifted out
+    def mkstr(s, parts, _budget=4):
+        for i, p_ in enumerate(parts):
+            if isinstance(p_, Cond) and _budget > 0:
+                return s.mkcond(p_.g, s.mkstr(parts[:i] + [p_.a] + parts[i + 1:], _budget - 1), s.mkstr(parts[:i] + [p_.b] + parts[i + 1:], _budget - 1))
+        out = []
+        for p_ in parts:
+            items = list(p_.k[1:]) if isinstance(p_, Opq) and p_.k and p_.k[0] == 'strcat' else [p_]
+            for it in items:
+                if isinstance(it, str) and it == '': continue
+                if isinstance(it, str) and out and isinstance(out[-1], str): out[-1] += it
+                else: out.append(it)
+        if not out: return ''
+        if len(out) == 1 and isinstance(out[0], str): return out[0]
+        return Opq('strcat', *out)
+
+    def to_str(s, val, spec_='', conv=-1, mod=None, depth=0):
+        if isinstance(val, Cond): return s.mkcond(val.g, s.to_str(val.a, spec_, conv, mod, depth), s.to_str(val.b, spec_, conv, mod, depth))
+        if isinstance(val, str) and spec_ == '' and conv in (-1, 115): return val
+        if isinstance(val, Opq) and val.k and val.k[0] == 'strcat' and spec_ == '' and conv in (-1, 115): return val
+        if isinstance(val, Rec) and spec_ == '' and conv in (-1, 115) and val.clsref and depth < s.depth_limit and val.cls in s.inline_str_classes:
+            mem = s.prog.find_member(val.clsref[0], val.clsref[1], '__str__')
+            if mem and isinstance(mem[1], ast.FunctionDef):
+                return s.call_fn(mem[1], mem[0], [val], {}, {'__parent__': None}, depth + 1)
+        return Opq('fmt', val, spec_, conv if conv != -1 else None)
 
     def e_Lambda(s, e, env, mod, depth):
         return Closure(e, env, mod, 'λ')
@@ -828,6 +870,7 @@ class Evaluator:
         gens = []
         for g in e.generators:
             it = _iter_view(s.ev(g.iter, env2, mod, depth))
+            if isinstance(it, dict) and all(not isinstance(k_, Opq) for k_ in it): it = [k_.v if isinstance(k_, _HK) else k_ for k_ in it]
             # concrete list/tuple of known length with a single generator: expand
             if len(e.generators) == 1 and isinstance(it, (list, tuple)) and len(it) <= 24:
                 out = []
@@ -918,7 +961,12 @@ class Evaluator:
                 # class attribute (e.g. RectFunction.wavetype default, Enum member)
                 mem = s.prog.find_member(v.mod, v.node, attr)
                 if mem and isinstance(mem[1], (ast.AnnAssign, ast.Assign)) and mem[1].value is not None:
-                    return s.ev(mem[1].value, {'__parent__': None}, mem[0], depth)
+                    val_ = mem[1].value
+                    if isinstance(val_, ast.Call) and ast.unparse(val_.func).split('.')[-1] == 'field':
+                        # dataclasses.field(default=X): the class attribute is X
+                        dk_ = {k.arg: k.value for k in val_.keywords}
+                        if 'default' in dk_: return s.ev(dk_['default'], {'__parent__': None}, mem[0], depth)
+                    return s.ev(val_, {'__parent__': None}, mem[0], depth)
                 if mem and isinstance(mem[1], ast.FunctionDef):
                     return Closure(mem[1], {'__parent__': None}, mem[0], attr, None, v.node)
                 return Poly.atom(('.', ('cls', v.name), attr))
@@ -944,6 +992,11 @@ class Evaluator:
         if isinstance(v, Poly) and v.as_atom() is not None:
             st = s.stores.get((v.as_atom(), attr))
             if st is not None: return st
+            if s.self_class is not None and v.as_atom() == s.self_atom and attr.startswith('_') and not attr.startswith('__') and depth < s.depth_limit:
+                # private helper PROPERTY of the class under analysis: unfolded like its private methods
+                mem_ = s.prog.find_member(s.self_class[0], s.self_class[1], attr)
+                if mem_ and isinstance(mem_[1], ast.FunctionDef) and s.prog.is_property(mem_[1]):
+                    return s.call_fn(mem_[1], mem_[0], [v], {}, {'__parent__': None}, depth + 1)
         return Poly.atom(('.', atomname(v), attr))
 
     def e_Subscript(s, e, env, mod, depth):
@@ -1036,11 +1089,11 @@ class Evaluator:
         if isinstance(recv, Ref) and recv.kind in ('module', 'ext', 'class'):
             return s.apply(s.getattr(recv, attr, mod, depth), args, kw, mod, depth, node)
         if attr == 'conjugate' and not args: return s.npcall('conj', [recv], {})
-        if (s.self_class is not None and isinstance(recv, Poly) and recv.as_atom() == s.self_atom and attr.startswith('_') and not attr.startswith('__')
+        if (s.self_class is not None and isinstance(recv, Poly) and recv.as_atom() == s.self_atom and ((attr.startswith('_') and not attr.startswith('__')) or attr in s.inline_self_methods)
                 and depth < s.depth_limit):
             # private helper of the class under analysis: inline it (public queries of `self` stay atoms)
             mem = s.prog.find_member(s.self_class[0], s.self_class[1], attr)
-            if mem and isinstance(mem[1], ast.FunctionDef) and not s.prog.is_property(mem[1]):
+            if mem and isinstance(mem[1], ast.FunctionDef) and not s.prog.is_property(mem[1]) and not any('abstractmethod' in d_ for d_ in s.prog.decorators(mem[1])):
                 return s.call_fn(mem[1], mem[0], [recv] + list(args), kw, {'__parent__': None}, depth + 1)
         if s.atom_methods and isinstance(recv, Poly) and (recv.as_atom(), attr) in s.atom_methods and depth < s.depth_limit:
             mm_, fn_ = s.atom_methods[(recv.as_atom(), attr)]
@@ -1066,14 +1119,28 @@ class Evaluator:
                 for i, x in enumerate(recv):
                     if same(x, args[0]): return Poly.const(i)
             if attr == 'copy': return list(recv)
-        if isinstance(recv, str) and attr in ('strip', 'lower', 'upper') and not has_opaque(recv):
+        if isinstance(recv, str) and attr in ('strip', 'lower', 'upper', 'lstrip', 'rstrip') and not has_opaque(recv) and not args:
             return getattr(recv, attr)()
+        if isinstance(recv, str) and attr == 'join' and len(args) == 1 and isinstance(args[0], (list, tuple)):
+            parts_ = []
+            for i_, x_ in enumerate(args[0]):
+                if i_ and recv: parts_.append(recv)
+                parts_.append(x_ if isinstance(x_, (str, Cond)) or (isinstance(x_, Opq) and x_.k and x_.k[0] in ('strcat', 'fmt')) else s.to_str(x_, '', -1, mod, depth))
+            return s.mkstr(parts_)
+        if isinstance(recv, str) and attr == 'format' and not kw and recv.count('{}') == len(args) and '{' not in recv.replace('{}', ''):
+            segs_ = recv.split('{}'); parts_ = []
+            for i_, sg_ in enumerate(segs_):
+                parts_.append(sg_)
+                if i_ < len(args): parts_.append(s.to_str(args[i_], '', -1, mod, depth))
+            return s.mkstr(parts_)
+        if attr == '__str__' and not args and isinstance(recv, (Rec, str)): return s.to_str(recv, '', -1, mod, depth)
         if attr in ('keys', 'values', 'items') and not args:
             return Opq(attr, recv)
         if attr in ('copy',) and not args: return recv
         if attr == 'get' and args:
             return Opq('get', recv, *args)
         # method of an unknown object: numeric-capable atom
+        s.atom_calls.append((atomname(recv), attr, list(args), dict(kw), tuple(s._pc)))
         return Poly.atom(('call', ('.', atomname(recv), attr), tuple(tkey(a) for a in args), tuple(sorted((k, tkey(v)) for k, v in kw.items()))))
 
     def apply(s, fv, args, kw, mod, depth, node=None):
@@ -1168,6 +1235,8 @@ class Evaluator:
 
     def builtin(s, name, args, kw, mod, depth):
         a = args[0] if args else None
+        if name == 'str' and len(args) == 1 and (isinstance(a, (Rec, str, Cond)) or (isinstance(a, Opq) and a.k and a.k[0] in ('strcat', 'fmt'))):
+            return s.to_str(a, '', -1, mod, depth)
         if name in ('float', 'str', 'int') and len(args) == 1:
             if name == 'int':
                 c = a.real_const() if isinstance(a, Poly) else None
@@ -1176,6 +1245,10 @@ class Evaluator:
             return a
         if name == 'bool' and len(args) == 1: return s.truth(a)
         if name == 'complex':
+            if not args and kw: args = [kw.get('real', Poly.const(0)), kw.get('imag', Poly.const(0))]
+            elif len(args) == 1 and 'imag' in kw: args = [args[0], kw['imag']]
+            a = args[0] if args else None
+            if not args: return Poly.const(0)
             if len(args) == 1: return a
             return s.binop(ast.Add(), args[0], s.binop(ast.Mult(), Poly.const(0, 1), args[1]))
         if name == 'abs': return s.npcall('abs', args, kw)
@@ -1228,6 +1301,11 @@ class Evaluator:
             return Opq('type', a)
         if name == 'sorted' and len(args) == 1 and not kw and isinstance(a, (list, tuple)) and all(isinstance(x, str) for x in a):
             return sorted(a)
+        if name in ('min', 'max', 'sorted', 'set', 'len', 'any', 'all') and len(args) == 1 and not kw:
+            a_ = args[0]
+            while isinstance(a_, Opq) and a_.k and a_.k[0] in ('list', 'keys', 'tuple', 'iter') and len(a_.k) == 2 and not (name in ('sorted', 'set', 'len') and a_.k[0] != 'keys'):
+                a_ = a_.k[1]        # min(d.keys()) == min(list(d)) == min(d)
+            args = [a_]
         if name == 'zip' and set(kw) <= {'strict'}: kw = {}                  # strict only adds a length check
         if name == 'enumerate' and kw.get('start') is not None and isinstance(kw['start'], Poly) and kw['start'].is_zero(): kw = {}
         if name == 'filter' and len(args) == 2 and not kw and isinstance(args[0], (Closure, Ref)):
@@ -1489,6 +1567,9 @@ class Evaluator:
                 s.stores = merged
                 _merge(env, g, e1, e2, s)
                 return s.mkcond(g, r1, r2)
+            elif isinstance(st, ast.Match):
+                chain = _match_as_ifs(st)
+                if chain is not None: return s.block(chain + rest, env, mod, depth)
             elif isinstance(st, ast.Try):
                 return s.block(st.body + st.orelse + st.finalbody + rest, env, mod, depth)
             elif isinstance(st, ast.With):
@@ -1928,6 +2009,32 @@ def _sentinel(v):
         at = v.as_atom()
         if isinstance(at, tuple) and at[:1] == ('sentinel',): return at
     return None
+
+
+def _match_as_ifs(st):
+    """match subject: case <literal | literal | ...>: ...  case _: ...   as an if / elif chain (None for structural patterns)"""
+    def test(pat):
+        if isinstance(pat, ast.MatchValue): return ast.Compare(left=st.subject, ops=[ast.Eq()], comparators=[pat.value])
+        if isinstance(pat, ast.MatchSingleton): return ast.Compare(left=st.subject, ops=[ast.Is()], comparators=[ast.Constant(value=pat.value)])
+        if isinstance(pat, ast.MatchOr):
+            ts = [test(p_) for p_ in pat.patterns]
+            return None if any(t is None for t in ts) else ast.BoolOp(op=ast.Or(), values=ts)
+        return None
+    out = None; cur = None
+    for case in st.cases:
+        wildcard = isinstance(case.pattern, ast.MatchAs) and case.pattern.pattern is None and case.pattern.name is None
+        if wildcard and case.guard is None:
+            if cur is None: return list(case.body)
+            cur.orelse = list(case.body); cur = None; break
+        t = test(case.pattern)
+        if t is None: return None
+        if case.guard is not None: t = ast.BoolOp(op=ast.And(), values=[t, case.guard])
+        node = ast.If(test=t, body=list(case.body), orelse=[])
+        ast.copy_location(node, case.body[0]); ast.fix_missing_locations(node)
+        if out is None: out = node
+        else: cur.orelse = [node]
+        cur = node
+    return [out] if out is not None else []
 
 
 def _is_append(st):
